@@ -1,25 +1,35 @@
 --------------------------- MODULE Trace_Pixel ---------------------------
 (* Trace validation (impl -> spec) for C19.  Every event is one decoding done by
-   mila: {kind, api, fmt, w, h, payload, pal, ok, pixels, err}.
+   mila: {kind, api, gen, fmt, w, h, payload, pal, ok, pixels, err}.
      kind "tex"     3DS texture (fmt, w, h, payload) decoded through a container
-                    reader or mila::decode (ETC1)
+                    reader (api "ctpk") or mila::decode (api "decode", ETC1)
      kind "rgb5a3"  run of big-endian RGB5A3 values (ColorFormat::decode)
      kind "ci8"     w x h palette image: payload in 8x4 blocks, pal = RGB5A3 bytes
                     (single-image TPL)
      kind "indexed" linear indices + RGBA palette (ColorFormat::decode_indexed)
    An event is accepted iff the call returned pixels (ok) and every channel of
-   every texel is one the specification allows.  Rejected indices are collected;
-   validation continues.  *)
+   every texel is one the specification allows.
+
+   The events are decodings of a pure function and independent of each other,
+   so instead of one linear behaviour the events are the leaves of a two-level
+   tree (root -> bucket -> event): TLC's workers validate buckets in parallel.
+   One line "E {i, ok, open, why}" is printed per event; the check insists on
+   exactly one line for each of the Len(Rec) events.  *)
 EXTENDS Pixel, TLC, Json, IOUtils
 
 Rec == ndJsonDeserialize(IOEnv.TRACE)
+NB == 24
 
-VARIABLES i, bad, open
-vars == <<i, bad, open>>
+VARIABLE i          \* 0 root, -k bucket k, > 0 event index
+Init == i = 0
+Next == \/ i = 0 /\ i' \in { 0 - k : k \in 1..NB }
+        \/ i < 0 /\ i' \in { j \in 1..Len(Rec) : (j % NB) + 1 = 0 - i }
+Spec == Init /\ [][Next]_i
 
 Accept(ev) ==
   /\ ev.ok
   /\ CASE ev.kind = "tex"     -> /\ ev.fmt \in Formats3DS
+                                 /\ ev.w \in {8, 16, 32, 64, 128} /\ ev.h \in {8, 16, 32, 64, 128}
                                  /\ Len(ev.payload) = PayloadSize(ev.fmt, ev.w, ev.h)
                                  /\ ImageOK(ev.fmt, ev.w, ev.h, ev.payload, ev.pixels)
        [] ev.kind = "rgb5a3"  -> Rgb5a3RunOK(ev.payload, ev.pixels)
@@ -37,29 +47,19 @@ OpenBlocks(ev) ==
        IN Cardinality({ k \in 0..(n - 1) : ~EtcValid(ev.payload, k * bs + bs - 8) })
   ELSE 0
 
+\* diagnosis of a rejected texture event: number of bad texels, the first one and what was there
 Why(ev) ==
-  IF ~ev.ok THEN <<>>
-  ELSE IF ev.kind = "tex" /\ Len(ev.pixels) = 4 * ev.w * ev.h /\ ev.fmt \in Formats3DS
-            /\ Len(ev.payload) = PayloadSize(ev.fmt, ev.w, ev.h)
-       THEN LET s == BadTexels(ev.fmt, ev.w, ev.h, ev.payload, ev.pixels)
-                t == CHOOSE t \in s : \A u \in s : <<t[2], t[1]>> = <<u[2], u[1]>> \/ t[2] < u[2] \/ (t[2] = u[2] /\ t[1] < u[1])
-                at == 4 * (t[2] * ev.w + t[1])
-            IN <<Cardinality(s), t[1], t[2], ev.pixels[at + 1], ev.pixels[at + 2], ev.pixels[at + 3], ev.pixels[at + 4]>>
-       ELSE <<>>
+  IF ev.ok /\ ev.kind = "tex" /\ ev.fmt \in Formats3DS /\ Len(ev.pixels) = 4 * ev.w * ev.h
+     /\ Len(ev.payload) = PayloadSize(ev.fmt, ev.w, ev.h)
+  THEN LET s  == BadTexels(ev.fmt, ev.w, ev.h, ev.payload, ev.pixels)
+           t  == CHOOSE t \in s : \A o \in s : t[2] * ev.w + t[1] <= o[2] * ev.w + o[1]
+           at == 4 * (t[2] * ev.w + t[1])
+       IN <<Cardinality(s), t[1], t[2], ev.pixels[at + 1], ev.pixels[at + 2], ev.pixels[at + 3], ev.pixels[at + 4]>>
+  ELSE <<>>
 
-Init == i = 1 /\ bad = <<>> /\ open = 0
-
-Next ==
-  /\ i <= Len(Rec)
-  /\ LET ev == Rec[i]
-         acc == Accept(ev) IN
-       /\ i' = i + 1
-       /\ open' = open + OpenBlocks(ev)
-       /\ bad' = IF acc THEN bad ELSE Append(bad, i)
-       /\ acc \/ PrintT("B " \o ToJson([i |-> i, why |-> Why(ev)]))
-
-Spec == Init /\ [][Next]_vars
-
-Report == (i = Len(Rec) + 1) =>
-            PrintT("R " \o ToJson([n |-> Len(Rec), bad |-> bad, open |-> open]))
+Report ==
+  i > 0 => LET ev == Rec[i]
+               acc == Accept(ev)
+           IN PrintT("E " \o ToJson([i |-> i, ok |-> acc, open |-> OpenBlocks(ev),
+                                    why |-> IF acc THEN <<>> ELSE Why(ev)]))
 =============================================================================
